@@ -2,7 +2,7 @@
 //! over hook H2 (`scylla::cluster::verif_state`) and the seeded topology generators.
 #![allow(dead_code)]
 use scylla::cluster::metadata::Strategy;
-use scylla::cluster::verif_state::{VerifPeer, cluster_state, keyspace};
+use scylla::cluster::verif_state::{VerifPeer, cluster_state_via_new, keyspace};
 use scylla::cluster::{ClusterState, NodeAddr};
 use scylla::routing::Token;
 use std::collections::{BTreeSet, HashMap};
@@ -126,7 +126,8 @@ pub fn build(rt: &tokio::runtime::Runtime, t: &Topo, pre: &[Strat]) -> ClusterSt
         })
         .collect();
     let keyspaces = pre.iter().enumerate().map(|(i, s)| (format!("ks{}", i), keyspace(to_strategy(s), false))).collect();
-    rt.block_on(cluster_state(peers, keyspaces))
+    // the REAL ClusterState::new (reject-all host filter: every node is pool-less, nothing connects)
+    rt.block_on(cluster_state_via_new(peers, keyspaces))
 }
 
 // ---------------------------------------------------------------- generators
@@ -140,7 +141,7 @@ pub fn gen_topo(r: &mut Rng, dup_tokens: bool) -> Topo {
     let ndc = r.range(1, 3);
     let racks_per_dc: Vec<u64> = (0..ndc).map(|_| r.range(1, 4)).collect();
     let some_dcless = r.chance(1, 8);
-    let some_rackless = r.chance(1, 6);
+    let some_rackless = r.chance(1, 4);
     let mut nodes = Vec::new();
     for i in 0..n {
         let dc = if some_dcless && r.chance(1, 4) { None } else { Some(r.below(ndc)) };
@@ -223,10 +224,13 @@ pub fn gen_strat(r: &mut Rng, t: &Topo) -> Strat {
                     continue;
                 }
                 let k = nodes_in(t, d);
-                let rf = match r.below(8) {
+                let rf = match r.below(10) {
                     0 => 0,
                     1 => k + r.range(0, 2),
                     2 | 3 => r.range(0, k + 2),
+                    // exactly the rack count (largest RF served from the compressed ring), and just above it
+                    4 | 5 => racks_in(t, d),
+                    6 => racks_in(t, d) + r.range(1, 2),
                     _ => r.range(1, 4),
                 };
                 m.push((d, rf));
@@ -243,6 +247,37 @@ pub fn vary(r: &mut Rng, s: &Strat) -> Strat {
         Strat::Nts(m) => Strat::Nts(
             m.iter()
                 .map(|(d, rf)| (*d, match r.below(3) { 0 => *rf, 1 => rf + r.range(1, 2), _ => rf.saturating_sub(r.range(1, 2)) }))
+                .collect(),
+        ),
+        o => o.clone(),
+    }
+}
+
+/// distinct racks ("no rack" counts as one) among the token-owning nodes of a datacenter
+pub fn racks_in(t: &Topo, d: u64) -> u64 {
+    let s: BTreeSet<Option<u64>> =
+        t.nodes.iter().filter(|n| n.1 == Some(d) && t.ring.iter().any(|e| e.1 == n.0)).map(|n| n.2).collect();
+    s.len() as u64
+}
+
+/// directed variation of a registered strategy: for an NTS replication factor m <= rack count the
+/// query m-1 (must be served as a true prefix of the stored list), for m > rack count + 1 a factor
+/// strictly between (not stored, must NOT use the prefix); SimpleStrategy: rf-1
+pub fn directed(r: &mut Rng, t: &Topo, s: &Strat) -> Strat {
+    match s {
+        Strat::Simple(rf) => Strat::Simple(if *rf >= 2 { rf - 1 } else { *rf }),
+        Strat::Nts(m) => Strat::Nts(
+            m.iter()
+                .map(|(d, rf)| {
+                    let racks = racks_in(t, *d);
+                    if *rf >= 2 && *rf <= racks {
+                        (*d, rf - 1)
+                    } else if *rf > racks + 1 {
+                        (*d, r.range(racks + 1, rf - 1))
+                    } else {
+                        (*d, *rf)
+                    }
+                })
                 .collect(),
         ),
         o => o.clone(),
